@@ -1,0 +1,8 @@
+//go:build !verif
+// +build !verif
+
+package cache
+
+func verifNow() (int64, bool) { return 0, false }
+
+func verifPoint(string) {}
